@@ -102,7 +102,7 @@ def saturating_mul16(a, b):
 def shift_left32(a, offset):
     assert offset >= 0
     assert np.int32(a) == a
-    shifted = a * (1 << offset)
+    shifted = int(a) * (1 << offset)
     if shifted < np.iinfo(np.int32).min:
         return np.int32(np.iinfo(np.int32).min)
     elif shifted > np.iinfo(np.int32).max:
@@ -114,7 +114,7 @@ def shift_left32(a, offset):
 def shift_left16(a, offset):
     assert offset >= 0
     assert np.int16(a) == a
-    shifted = a * (1 << offset)
+    shifted = int(a) * (1 << offset)
     if shifted < np.iinfo(np.int16).min:
         return np.int16(np.iinfo(np.int16).min)
     elif shifted > np.iinfo(np.int16).max:
@@ -125,6 +125,7 @@ def shift_left16(a, offset):
 
 def downscale_multiplier_int32_to_int16(a):
     assert np.int32(a) == a
+    a = int(a)
     rounding_offset = 1 << 15
     if a >= np.iinfo(np.int32).max - rounding_offset:
         return np.iinfo(np.int16).max
@@ -135,6 +136,7 @@ def downscale_multiplier_int32_to_int16(a):
 def rounding_divide_by_pot(x, exponent):
     assert np.int32(x) == x
     assert np.int32(exponent) == exponent
+    x = int(x)
     mask = (1 << exponent) - 1
     remainder = x & mask
     threshold = mask >> 1
@@ -149,6 +151,7 @@ def rounding_divide_by_pot(x, exponent):
 def saturating_rounding_multiply_by_pot(x, exponent):
     assert np.int32(x) == x
     assert np.int32(exponent) == exponent
+    x = int(x)
     threshold = (1 << (np.iinfo(np.int32).bits - 1 - exponent)) - 1
     if x > threshold:
         return np.iinfo(np.int32).max
@@ -231,5 +234,5 @@ def multiply_by_quantized_multiplier(x, scale, shift):
     shift = 31 - shift
     left_shift = shift if shift > 0 else 0
     right_shift = -shift if shift < 0 else 0
-    mul = saturating_rounding_mul32(x * (1 << left_shift), scale)
+    mul = saturating_rounding_mul32(int(x) * (1 << left_shift), scale)
     return rounding_divide_by_pot(mul, right_shift)
